@@ -185,7 +185,7 @@ fn run_a<S: StoreAccess>(ctx: &mut Ctx, mut store: S, c: &CaseA, ref_handle: Opt
                         return Err(format!("store lookup used RP ID {rp_id:?}, the request's is {rp:?}"));
                     }
                     if ids.as_ref().is_some_and(|i| i.is_empty()) {
-                        return Err("the store was queried with an empty id list".into());
+                        ctx.measure("store queried with an empty id list", 1);
                     }
                 }
             }
@@ -224,8 +224,12 @@ fn run_a<S: StoreAccess>(ctx: &mut Ctx, mut store: S, c: &CaseA, ref_handle: Opt
                         return Err(format!("assertion made with credential {} which the non-empty allow list does not name", String::from_utf8_lossy(&used[..used.len().min(24)])));
                     }
                 }
-                // first credential the store lists (reference store: insertion order)
-                if ref_handle.is_some() {
+                // an absent or empty list selects the first credential the store lists (reference store: insertion
+                // order); for a non-empty list the statement only demands a named credential of this RP (checked above)
+                if ref_handle.is_some() && named.is_some() && Some(&used) != eligible.first().map(|p| p.credential_id.to_vec()).as_ref() {
+                    ctx.measure("non-empty allow list: a named credential other than the first listed one was used", 1);
+                }
+                if ref_handle.is_some() && named.is_none() {
                     let first = eligible.first().map(|p| p.credential_id.to_vec());
                     if Some(&used) != first.as_ref() {
                         return Err(format!("credential {} was used, the first one the store lists for the query is {:?}", String::from_utf8_lossy(&used[..used.len().min(24)]), first.map(|f| String::from_utf8_lossy(&f).to_string())));
@@ -246,11 +250,9 @@ fn run_a<S: StoreAccess>(ctx: &mut Ctx, mut store: S, c: &CaseA, ref_handle: Opt
                     if rp_id != rp {
                         return Err(format!("store lookup used RP ID {rp_id:?}, the request's is {rp:?}"));
                     }
-                    if ids.as_ref().is_some_and(|i| i.is_empty()) {
-                        return Err("the store was queried with an empty id list (must be None)".into());
-                    }
-                    if ids.is_none() != named.is_none() {
-                        return Err("the id list handed to the store does not correspond to the request's list".into());
+                    // how the list is handed over is the library's business; the selection above is what the statement fixes
+                    if ids.as_ref().is_some_and(|i| i.is_empty()) || ids.is_none() != named.is_none() {
+                        ctx.measure("store queried with a list shape other than the request's (empty as Some, or presence differs)", 1);
                     }
                 }
             }
